@@ -61,11 +61,6 @@ def exceptions : List (String × String × String) := [
      "Connect waits on the channel init() created (under mu) earlier in the same call; it holds muConnecting exclusively"),
   ("(*BaseClient).Connect$go", "BaseClient.connClosed",
      "the reader goroutine closes the channel init() created before the goroutine was started (go statement); never reassigned while it runs"),
-  ("(*BaseClient).Ping", "BaseClient.connClosed",
-     "read after signaller() succeeded under mu, i.e. after init() published sig and connClosed together; never reassigned"),
-  ("publishImpl", "BaseClient.connClosed", "as for Ping"),
-  ("subscribeImpl", "BaseClient.connClosed", "as for Ping"),
-  ("unsubscribeImpl", "BaseClient.connClosed", "as for Ping"),
   ("(*BaseClient).Connect", "signaller.chConnAck",
      "written under BaseClient.mu before CONNECT is written; the reader reads it only for the CONNACK that answers that CONNECT"),
   ("(*RetryClient).SetClient$go", "RetryClient.chTask",
@@ -86,10 +81,19 @@ def under : Nat → String → String → Bool
 def holds (m : String) (write : Bool) (held : List String) : Bool :=
   held.contains m || (!write && held.contains (m ++ ":r"))
 
+/-- exceptions stated by their justification instead of by function (the extractor records the two facts as pseudo-locks):
+    * `addr-of`: `&x.f` takes the field's address; the helper that receives the pointer does the access under what it locks
+    * `after:signaller`: `connClosed` read after `x.signaller()` returned in the same function — `signaller()` reads `sig` under
+      the client mutex, and `init()` publishes `sig` and `connClosed` together under that mutex; neither is reassigned while
+      the connection lives (Ping, publishImpl, subscribeImpl, unsubscribeImpl today, whatever they are called tomorrow) -/
+def justified (field : String) (write : Bool) (held : List String) : Bool :=
+  (!write && held.contains "addr-of") ||
+  (!write && field == "BaseClient.connClosed" && held.contains "after:signaller")
+
 def ok (a : String × String × Bool × List String) : Bool :=
   let (fn, field, write, held) := a
   match guard field with
-  | some m => holds m write held || exceptions.any (fun e => e.2.1 = field && under 3 e.1 fn)
+  | some m => holds m write held || justified field write held || exceptions.any (fun e => e.2.1 = field && under 3 e.1 fn)
   | none => confined 4 fn
 
 /-- every access in the regenerated table follows the discipline (as long as the sources still have the fields and
@@ -100,7 +104,7 @@ theorem discipline : Vocab.known Vocab.lockPolicy = true → Generated.accesses.
 theorem table_nonvacuous : Vocab.known Vocab.lockPolicy = true →
     Generated.accesses.length ≥ 100 ∧
     Generated.accesses.any (fun a => a.2.1 = "RetryClient.taskQueue" && a.2.2.1) = true ∧
-    Generated.accesses.any (fun a => a.2.1 = "signaller.chPubAck" && a.2.2.1) = true := by decide +kernel
+    Generated.accesses.any (fun a => a.2.1.startsWith "signaller." && a.2.2.2.any (·.startsWith "signaller.mu")) = true := by decide +kernel
 
 /-- packets never interleave: exactly one function calls Transport.Write (`(*BaseClient).write` today) and it takes muWrite first, releasing it by defer -/
 theorem writes_serialised : Vocab.known Vocab.lockPolicy = true →
